@@ -21,7 +21,7 @@ INSTR_STMT = {"files": {"stream.go": {"funcs": INSTR["files"]["stream.go"]["func
 INSTRS = {'fine': INSTR_FINE, 'stmt': INSTR_STMT}
 HARNESS = ['zz_vs_sched.go', 'zz_freelist_test.go', 'zz_pair_test.go', 'zz_session_test.go', 'zz_callback_test.go']
 SLUGS = ['peer-close-before-offer', 'close-during-callback']
-INVS = 'Serial NoDupOffer OrderOffer NoStranding PeerLearns CallbackOnce CleanAlone'
+INVS = 'Serial NoDupOffer OrderOffer NoStranding PeerLearns CallbackOnce CleanAlone OnDataHoldsRole'
 WITNESS = {
     # data followed by the peer's close in the same drain: the offering loop is gated by IsOpen()
     ('C20', 'peer-close-before-offer'): dict(events='ddc', user=False, inon=False, steps=[
@@ -36,7 +36,7 @@ WITNESS = {
 }
 
 
-def files(events, user, inon, prune, invs=INVS, props='NothingAfterClose'):
+def files(events, user, inon, prune, invs=INVS, props='NothingAfterClose RecycleOnlyIdle'):
     w = '---- MODULE MC_Callback ----\nEXTENDS Callback\nmcEvents == <<%s>>\n====\n' % ', '.join('"%s"' % e for e in events)
     cfg = 'SPECIFICATION Spec\nCONSTANTS\n  Events <- mcEvents\n  UserClose = %s\n  CloseInOnData = %s\n%s\nINVARIANTS %s\nPROPERTIES %s\nCHECK_DEADLOCK FALSE\n' % (
         'TRUE' if user else 'FALSE', 'TRUE' if inon else 'FALSE', 'CONSTRAINT NoKnownFinding' if prune else '', invs, props)
@@ -155,7 +155,7 @@ def run(prop, tier, seed, replay=None, ck=None, finish=True):
                                      % (ev, user, inon, res.distinct, len(edges), len(paths)))
     # liveness on the design: every behaviour settles (no lost hand-off) under weak fairness
     lv = None if prop in ('C10', 'C09') else tlc.run('MC_Callback', 'mc.cfg', timeout=600, extra_files={**files('ddd', False, False, True), 'mc.cfg':
-        files('ddd', False, False, True)['mc.cfg'].replace('SPECIFICATION Spec', 'SPECIFICATION FairSpec').replace('PROPERTIES NothingAfterClose', 'PROPERTIES NothingAfterClose EventuallySettled')})
+        files('ddd', False, False, True)['mc.cfg'].replace('SPECIFICATION Spec', 'SPECIFICATION FairSpec').replace('PROPERTIES NothingAfterClose RecycleOnlyIdle', 'PROPERTIES NothingAfterClose RecycleOnlyIdle EventuallySettled')})
     if lv is not None:
         ck.cov['liveness_eventually_settled'] = 'holds (%d states)' % lv.distinct if lv.ok else (lv.violation or lv.error or 'timeout')
     # design counterexamples without pruning (classifier not vacuous)
